@@ -340,9 +340,15 @@ func (c *context) RecvMsg() (*protocol.Message, error) {
 		c.cond.Wait()
 	}
 
-	m := c.repMsg
-	c.reqID = 0
-	c.repMsg = nil
+	// Only consume the reply (and retire the request) if the request we
+	// waited for is still the current one.  If a new SendMsg superseded
+	// it, the id and any reply now belong to that newer request.
+	var m *protocol.Message
+	if c.reqID == id {
+		m = c.repMsg
+		c.reqID = 0
+		c.repMsg = nil
+	}
 	c.receiveWait = false
 	c.cond.Broadcast()
 
